@@ -16,7 +16,7 @@ EXPLANATION = ("Gillespie_SIS: as C01 -- every reachable state within E events o
                "(infector recorded), every infection is such a point, recoveries end episodes; each stream is extended by one "
                "arbitrary further point so that contacts the implementation never asked about are covered too.")
 BOUNDS = {'quick': 'Gillespie_SIS: G3 x initial sets x weights {none, both}, <=3 events.  fast_SIS: K2, P3; <=3 infectious episodes; <=3 stream points per (episode, neighbour); symbolic tmax; weights none/both on K2',
-          'thorough': 'Gillespie_SIS: + P4, S3, C4, <=5 events; fast_SIS: + K3, <=4 episodes'}
+          'thorough': 'Gillespie_SIS: + P4, S3, C4, <=5 events (real weighted candidate sets on K2, P3 only); fast_SIS: K2 <=4 episodes, P3 <=3 episodes x 3 stream points, K3 <=2 episodes from <=2 initial nodes (larger settings exceeded the path cap)'}
 ASSUMPTIONS = ['floats as reals', 'L2 memorylessness of the Poisson process (coupling is law-preserving)', 'generic position: stream points differ from the status-change times of the nodes involved',
                'weighted candidate sets through their abstraction (C16)']
 OPTS = {'quick': {'max_validate': 2, 'validate_every': 23, 'cfg_timeout': 250}, 'thorough': {'max_validate': 2, 'validate_every': 211, 'cfg_timeout': 1700}}
